@@ -291,7 +291,7 @@ let dispatch (op : string) (a : tok list) : string =
   | "paddproj" -> pt (BabyJub.coq_Affine (BabyJub.coq_Add ((i 0, i 1), i 2) ((i 3, i 4), i 5)))
   | "mul" -> pt (BabyJub.coq_Mul (i 0) (p 1))
   | "mulrecv" | "mulalias" -> let r = BabyJub.coq_Mul (i 0) (p 1) in pt r ^ " " ^ pt r
-  | "pset" -> pt (p 0) ^ " " ^ pt (p 0)
+  | "pset" | "psetalias" | "psetshared" -> pt (p 0) ^ " " ^ pt (p 0)
   | "mulB8" -> pt (BabyJub.coq_Mul (i 0) BabyJub.coq_B8)
   | "incurveB8" -> boolS (BabyJub.coq_InCurve BabyJub.coq_B8) ^ " " ^ boolS (BabyJub.coq_InSubGroup BabyJub.coq_B8)
   | "compressB8" -> xB (BabyJub.coq_Compress BabyJub.coq_B8)
